@@ -1210,7 +1210,23 @@ func (x *fx) runDefers() {
 		if d.Block().Dominates(x.curBlock) {
 			x.call(nil, d.Common())
 		} else if x.blockReaches(d.Block(), x.curBlock) {
-			panic(unsupported("defer that runs only on some paths to a return"))
+			if !x.c.Abstract {
+				panic(unsupported("defer that runs only on some paths to a return"))
+			}
+			// abstracted mode: the deferred call runs iff the defer statement's
+			// block was executed on this path
+			cond, ok := x.blockPC[d.Block().Index]
+			if !ok {
+				panic(unsupported("defer inside a loop that runs only on some paths to a return"))
+			}
+			before, savedPC := x.curMem, x.curPC
+			x.curPC = x.and(savedPC, cond)
+			x.call(nil, d.Common())
+			m := x.newMem("merge", nil)
+			m.preds = []mergeEdge{{cond, x.curMem}, {"true", before}}
+			x.curMem = m
+			x.curPC = savedPC
+			x.abstracted["conditionally deferred call: runs iff its defer statement was reached"] = true
 		}
 	}
 }
